@@ -17,7 +17,7 @@ RULE = ("every canonical vertex sequence (start at the smallest grid point, seco
 BOUND = {"quick": "all simple grid polygons with 3..5 vertices (4x4 grid), all shifts and orientations; stars/regular 3..80; all sub-tissues of a 7-cell base",
          "thorough": "all simple grid polygons with 3..6 vertices (4x4 grid); all sub-tissues of 11-cell base and square3x3"}
 ASSUMPTIONS = ["zero-area vertex sequences are not polygons and are not generated", "y-up frame"]
-REQUIRED_TAGS = {"all": ["polygon_block", "star", "subtissue_holefree", "nonconvex", "history", "vertex_only_neighbours"]}
+REQUIRED_TAGS = {"all": ["polygon_block", "star", "subtissue_holefree", "nonconvex", "history", "vertex_only_neighbours", "removed_1", "removed_2"]}
 
 GRID = [(x, y) for y in range(4) for x in range(4)]
 
@@ -379,6 +379,95 @@ class CellHistories:
         return [], []
 
 
+class RemovalHistories:
+    """sub-tissues produced by the library itself: sequences of ForSys.remove_cell on one live object, the cells' stored and
+    recomputed neighbours and the area sum being read after every removal (the harness keeps no reference to any Cell, so
+    the library's destructor-based bookkeeping runs exactly as it does for a user who only holds the ForSys object)"""
+    chunk = 8
+
+    def __init__(self, base, k, depth):
+        self.base = base
+        self.name = "remove-cell-histories:%s" % base
+        self.at = bases.get(base)
+        self.k = k
+        self.bound = depth
+
+    def initial(self):
+        return [{"removed": []}]
+
+    def actions(self, d):
+        return [["remove", c] for c in sorted(self.at["C"], key=int) if c not in d["removed"]]
+
+    def step(self, d, a):
+        return {"removed": d["removed"] + [a[1]]}
+
+    @staticmethod
+    def _observe(frame, inv):
+        """physical observation; every local that refers to a Cell dies with this frame"""
+        out = {"stored": {}, "fresh": {}, "share": {}, "area": 0.0}
+        cyc = {cid: {vv.id for vv in cc.vertices} for cid, cc in frame.cells.items()}
+        for cid in list(frame.cells):
+            out["stored"][inv[cid]] = sorted(inv.get(x, "gone:%s" % x) for x in getattr(frame.cells[cid], "neighbors", []))
+            with fsutil.quiet():
+                out["fresh"][inv[cid]] = sorted(inv.get(x, "gone:%s" % x) for x in frame.cells[cid].calculate_neighbors())
+                out["area"] += abs(float(frame.cells[cid].get_area()))
+            out["share"][inv[cid]] = sorted(inv[o] for o in cyc if o != cid and cyc[o] & cyc[cid])
+        return out
+
+    def evaluate(self, d):
+        import forsys as fs
+        import gc
+        cm = T.CMap([T.mob(0.04 + 0.02j)]) if self.k else T.CMap()
+        with fsutil.quiet():
+            v, e, c, info = T.realise(self.at, k=self.k, cmap=cm)
+            s = fs.ForSys({0: T.frame_of(v, e, c)})
+        cellid = dict(info["cellid"])
+        inv = {fid: cid for cid, fid in cellid.items()}
+        del v, e, c, info
+        viol, tags = [], []
+        obs = None
+        for n, cid in enumerate(d["removed"]):
+            with fsutil.quiet():
+                _, ex = fsutil.call(s.remove_cell, 0, cellid[cid])
+            if ex is not None:
+                viol.append({"what": "remove_cell raised", "detail": {"removed": d["removed"][:n + 1], "exc": fsutil.exc_str(ex)}})
+                ex = None
+                break
+            tags.append("removed_%d" % (n + 1))
+            obs = self._observe(s.frames[0], inv)
+            remaining = sorted(set(self.at["C"]) - set(d["removed"][:n + 1]), key=int)
+            if sorted(obs["share"], key=int) != remaining:
+                viol.append({"what": "after remove_cell the frame does not hold exactly the remaining cells", "detail": {"got": sorted(obs["share"], key=int), "exp": remaining}})
+                break
+            for which in ("stored", "fresh"):
+                bad = [x for x in remaining if obs[which][x] != obs["share"][x]]
+                if bad:
+                    viol.append({"what": "after remove_cell the %s neighbours of a cell are not the other cells sharing a vertex with it" % ("stored (Frame-populated)" if which == "stored" else "recomputed"),
+                                 "detail": {"removed": d["removed"][:n + 1], "cell": bad[0], "got": obs[which][bad[0]], "exp": obs["share"][bad[0]]}})
+                    break
+            if viol:
+                break
+            # differential: the same sub-tissue built directly
+            sub = T.sub_tissue(self.at, remaining)
+            jpos, ipts = T.geometry(sub, self.k, cm)
+            adj = T.cell_adjacency(sub)
+            oa = outline_area(sub, jpos, ipts)
+            if oa is not None:
+                tags.append("subtissue_holefree")
+                if abs(obs["area"] - oa) > 1e-9 * max(1.0, oa):
+                    viol.append({"what": "after remove_cell the absolute cell areas do not add up to the area enclosed by the outline of the remaining tissue",
+                                 "detail": {"sum": obs["area"], "outline": oa, "removed": d["removed"][:n + 1]}})
+                    break
+            else:
+                tags.append("subtissue_with_hole_or_pinch")
+        key = "%s|%s" % (self.base, ",".join(d["removed"]))
+        return {"key": key, "viol": viol, "tags": sorted(set(tags)), "cls": "%d/%s" % (len(d["removed"]), fsutil.state_hash(obs["share"] if obs else None)[:8]),
+                "nontrivial": bool(d["removed"]), "obs": None}
+
+    def check_edge(self, d, a, d2, r, r2):
+        return [], []
+
+
 def build(tier, seed):
     nmax = 5 if tier == "quick" else 6
     systems = []
@@ -392,8 +481,13 @@ def build(tier, seed):
         systems.append(SubTissueCells("v5x4", [0, 2], ["none", "alt"]))
         systems.append(SubTissueCells("v4x4p%d" % (seed + 1), [1], ["all"]))
         systems.append(SubTissueCells("square3x3", [0, 1], ["none", "alt"]))      # 4-fold junctions: cells that share a vertex but no edge
+        systems.append(RemovalHistories("v4x4", 1, 2))
+        systems.append(RemovalHistories("square3x3", 0, 2))
     else:
         systems.append(SubTissueCells("v5x5", [0, 2], ["none", "alt", "all"]))
         systems.append(SubTissueCells("square3x3", [0, 1], ["none", "alt"]))
         systems.append(SubTissueCells("v5x4p%d" % (seed + 1), [0, 3], ["none", "alt"]))
+        systems.append(RemovalHistories("v4x4", 1, 3))
+        systems.append(RemovalHistories("v5x4", 2, 2))
+        systems.append(RemovalHistories("square3x3", 0, 4))
     return systems
